@@ -336,6 +336,20 @@ Theorem c13_giveup_final_state_refuted :
 Proof. exact giveup_final_state_refuted. Qed.
 Print Assumptions c13_giveup_final_state_refuted.
 
+(* why giving up is never right with this reader: whenever the reader thread is dead and the consumer
+   is still collecting, the marker is in the queue, so a timed get cannot time out after the reader's
+   death.  `is_alive() = False` seen after a time-out therefore always means that the queue was filled
+   in between (the race above); a consumer that samples is_alive() BEFORE its timed get never gives up. *)
+Theorem c13_dead_reader_marker_queued : forall c s k acc,
+  reach c s -> pp s = PDone -> cc s = CCollect k acc -> sentinels (q s) = 1 /\ q s <> [].
+Proof. exact dead_reader_marker_queued. Qed.
+Print Assumptions c13_dead_reader_marker_queued.
+
+Theorem c13_no_timeout_after_death : forall c m x x',
+  reach c (base x) -> pp (base x) = PDone -> ~ xstep c m (Some XTimeout) x x'.
+Proof. exact no_timeout_after_death. Qed.
+Print Assumptions c13_no_timeout_after_death.
+
 Example ex_giveup_trace :
   xaccepts giveup_cfg GiveUp
     [XEv EvStart; XTimeout; XEv (EvReadOk 0); XEv (EvPut 0); XEv EvPutSent; XAlive false; XEv EvJoin] = true /\
